@@ -88,6 +88,11 @@ def run_space_check(pid, tier, jobs, rule, assumptions, budget_s=None, extra_fin
         if r.get("nontrivial"):
             if r["A_digest"] not in a_digests:
                 a_digests.add(r["A_digest"])
+        crit = (r["ref"].get("k") or {}).get("critical")
+        if crit:
+            led = chk.cov.setdefault("critical_points_per_clause", {})
+            for k_, v_ in crit.items():
+                led[k_] = led.get(k_, 0) + v_
         if r.get("post_checked"):
             chk.cov["reported_solutions_checked"] = chk.cov.get("reported_solutions_checked", 0) + r["post_checked"]
             chk.cov["traces_validated_against_impl"] += r["post_checked"]
